@@ -500,3 +500,6 @@ package parse
 //@   nopanic
 //@ func (HasArgument).ArgLength
 //@   nopanic
+//@ func (Node).Children
+//@   nopanic
+//@   ensures forall(i, 0, len(result), result[i] != nil)
